@@ -51,10 +51,10 @@ func GenC08(t *rapid.T) *C08Case {
 	if drawBool(t, "variant") {
 		c.Build = 1 + genRaw(t)
 	}
-	if drawInt(t, 0, 4, "derived") == 0 {
+	if oneIn(t, 5, "derived") {
 		c.Derived = drawInt(t, 1, 3, "every")
 	}
-	if drawInt(t, 0, 4, "share") == 0 {
+	if oneIn(t, 5, "share") {
 		c.Share, c.ShareFrom, c.ShareInto = true, genRaw(t), genRaw(t)
 	}
 	model := tFromV(root)
